@@ -808,7 +808,14 @@ void Lexer::yyinput_CORE(const char*& yy,
             ++offset;
         }
 
-        yychar = *(yy += trailBytesCurCP + 1);
+        // Step over the trail bytes the lead byte announces, but never past
+        // the terminator: the sequence may be truncated or malformed.
+        ++yy;
+        while (trailBytesCurCP && *yy) {
+            ++yy;
+            --trailBytesCurCP;
+        }
+        yychar = *yy;
     }
     else {
         yychar = *++yy;
